@@ -60,6 +60,8 @@ def check_patch_obj(ctx: Ctx, rule_prefix: str = 'R8') -> None:
     def eff(it, p, call, names):
         if any(n.endswith('clients.api.patch') for n in names):
             return 'patch'
+        if any(n.endswith('patches.Patch.as_json_patch') for n in names) or (isinstance(call.func, ast.Attribute) and call.func.attr == 'as_json_patch'):
+            return 'jsonops'
         return None
     cfg = absint.Config(effect=eff, versioned={'body_patch'}, raising={'api.patch': [E422, E404]})
     paths = absint.analyse(repo, f, cfg)
@@ -121,6 +123,20 @@ def check_patch_obj(ctx: Ctx, rule_prefix: str = 'R8') -> None:
                     # a 422 on a merge-patch is not a concurrency conflict: it must propagate
                     if p.status != 'raise':
                         bad['R8.3'].append(f'422 on a merge request must propagate, observed {p.status}')
+        # the JSON ops are computed against the freshest body known when they are computed (the response of the last merge request,
+        # else the body the patch was built for) -- the same body whose resourceVersion the test op then pins
+        merged = [r['result'] for r in reqs if r['ct'] == 'merge' and not r['raised']]
+        for e in p.trace:
+            if e.label == 'jsonops':
+                base = e.kw.get('#0') or e.kw.get('body')
+                freshest = merged[-1] if merged else 'patch._original'
+                allowed = {freshest, 'patch._original'} if absint.entails(repo, f, p, f'truthy({freshest})') is not True else {freshest}
+                recv_ok = isinstance(e.node.func, ast.Attribute) and 'fns=patch.fns' in e.key.split('.as_json_patch')[0]
+                if base is None or base.key not in allowed:
+                    bad['R8.1'].append(f'the JSON ops of the transformations are computed against `{base.key if base else None}`, not against the freshest body '
+                                       f'`{freshest}` whose resourceVersion the test op pins (ops from a stale state would pass the test)')
+                if not recv_ok:
+                    bad['R8.1'].append(f'the JSON ops are not computed from the remaining patch (exactly patch.fns): `{e.key[:100]}`')
         # JSON payloads: first op is the resourceVersion test against the freshest body known
         prev_results: list[str] = []
         for i, r in enumerate(reqs):
@@ -150,7 +166,7 @@ def check_patch_obj(ctx: Ctx, rule_prefix: str = 'R8') -> None:
             'R8.2': 'patch_obj: a 404 on any of the four requests ends patching silently with (None, None)',
             'R8.3': 'patch_obj: a 422 on a JSON request returns the remaining patch = exactly patch.fns (nothing dropped, no dict content); success returns None',
         }[rule]
-        ctx.ob(rule.replace('R8', rule_prefix) if rule_prefix != 'R8' else rule,
+        ctx.ob(rule if rule_prefix == 'R8' else rule_prefix,
                f'{what} ({len(paths)} paths, {n_val} valuations, {len(rows)} distinct request rows)', not uniq and len(rows) >= 8,
                loc=f.loc(), construct=construct(f, f'table:{rule}'), detail=' | '.join(uniq[:3]))
     ctx.sample({'rule': 'R8.1', 'rows': sorted(str(r) for r in rows)[:12]})
@@ -264,6 +280,19 @@ def check_carry_forward(ctx: Ctx, rule_prefix: str = 'R8') -> None:
                         ok = True
     ctx.ob(r5, 'process_resource_event: the remaining patch returned by apply() is stored back into the object memory', ok and len(stores) == 1,
            loc=pe.loc(stores[0]) if stores else pe.loc(), construct=construct(pe, 'flow:memory.remaining_patch='))
+    # ... unconditionally: also a None/empty remainder must replace the old one (else a stale remainder pre-populates every later cycle,
+    # which then never reaches the state-dependent handlers again -- table A.3, atom P0)
+    from ..rules import cfg_of, witness
+    g = cfg_of(ctx, pe)[1]
+    apply_nodes = g.call_nodes('application.apply')
+    store_nodes = [n for n in g.nodes if n.stmt is not None and any(n.stmt is s_ for s_ in stores)]
+    after_apply = [m for n in apply_nodes for m in n.succ if m not in n.exc_edges.values()]     # apply() completed normally
+    esc = g.escaping_exits(after_apply, store_nodes, classes=('normal',)) if apply_nodes else [None]
+    esc = [e for e in esc if not any(m in store_nodes for m in after_apply)] if esc != [None] else esc
+    ctx.ob(r5, 'process_resource_event: after apply() every normal path stores the new remainder (None included) -- a stale remainder is never kept',
+           bool(apply_nodes) and bool(store_nodes) and not esc, loc=pe.loc(stores[0]) if stores else pe.loc(),
+           construct=construct(pe, 'allexits:memory.remaining_patch= after apply'),
+           detail='' if not esc or esc == [None] else 'a normal exit is reachable after apply() without the store: ' + witness(g, after_apply, esc[0], store_nodes))
     ap = repo.fn('application.apply')
     ctx.analysed(ap)
     rets = [r for r in walk_no_defs(ap.node) if isinstance(r, ast.Return) and isinstance(r.value, ast.Tuple) and len(r.value.elts) == 3]
@@ -335,6 +364,9 @@ def check_identity(ctx: Ctx) -> None:
 def check(ctx: Ctx) -> None:
     check_patch_obj(ctx)
     check_carry_forward(ctx)
+    from . import _prc
+    _prc.check_table(ctx, 'R8.5', 'process_resource_causes (Appendix A.3): a cycle that starts from a carried-forward patch (non-empty at entry, dict content '
+                     'or transformation fns alike) skips the state-dependent handlers and only re-applies it')
     check_identity(ctx)
 
 
